@@ -324,6 +324,11 @@ class StreamWriter(AbstractStreamWriter):
             self._eof = True
             return
 
+        # Never write more than the declared Content-Length, same as write()
+        if chunk and self.length is not None:
+            chunk = chunk[: self.length]
+            self.length -= len(chunk)
+
         # No compression - send buffered headers if not yet sent
         if self._headers_buf and not self._headers_written:
             # Use helper to send headers with payload
